@@ -151,6 +151,9 @@ func genInboxF(r *rng, ty string, k int, focus bool) *scenario {
 	w := baseWorld(r)
 	cfg := defaultCfg()
 	cfg.OnFollow = r.intn(3)
+	if focus {
+		cfg.OnFollow = k % 3
+	}
 	randomWrapCfg(r, &cfg, ty, true)
 	if focus && k%3 != 0 {
 		cfg.FedOther = nil
@@ -205,10 +208,24 @@ func genInboxF(r *rng, ty string, k int, focus bool) *scenario {
 		act["object"] = one(objs)
 	case "Update", "Delete":
 		var objs []interface{}
+		foreignAt := -1
+		if focus { // the object of another origin first / last / after two of the activity's own
+			switch k % 4 {
+			case 1:
+				nobj, foreignAt = 2, 1
+			case 2:
+				nobj, foreignAt = 2, 0
+			case 3:
+				nobj, foreignAt = 3, 2
+			}
+		}
 		for i := 0; i < nobj; i++ {
 			h := remote
-			if r.chance(1, 3) {
+			if r.chance(1, 3) && !focus {
 				h = pick(r, []string{"https://remote.example:444", "https://remote.example:443", "https://REMOTE.example", "https://sub.remote.example", "https://u:p@remote.example", local})
+			}
+			if i == foreignAt {
+				h = pick(r, []string{"https://remote.example:444", "https://REMOTE.example", "https://sub.remote.example", "https://other.example", local})
 			}
 			o := jmap{"type": "Note", "id": fmt.Sprintf("%s/notes/%d-%d", h, k, i), "content": "updated"}
 			if ty == "Delete" && r.chance(1, 2) {
@@ -410,8 +427,8 @@ func genShape(r *rng, reps int) []*scenario {
 						if !has && e != "empty" && e != "noid" {
 							continue
 						}
-						if p == "type" && (useSend || e == "double" || e == "noid") {
-							continue // Send needs a decodable value; arrays of types are not modelled
+						if p == "type" && (useSend || e == "noid") {
+							continue // Send needs a decodable value
 						}
 						if !has && !(p == "object" || p == "target" || p == "actor") {
 							continue
@@ -425,7 +442,9 @@ func genShape(r *rng, reps int) []*scenario {
 						case "empty":
 							body[p] = []interface{}{}
 						case "double":
-							if l, ok := v.([]interface{}); ok && len(l) > 0 {
+							if p == "type" { // several names: decoded under the first that is a type of the vocabularies
+								body[p] = []interface{}{"ext:Unknown", v, "ext:Archived"}
+							} else if l, ok := v.([]interface{}); ok && len(l) > 0 {
 								body[p] = append(append([]interface{}{}, l...), l[0])
 							} else {
 								body[p] = []interface{}{v, v}
@@ -812,6 +831,9 @@ func genGet(r *rng, kind string, k int) *scenario {
 		if r.chance(1, 4) {
 			id := local + "/tomb/1"
 			w.Store[id] = jmap{"@context": asCtx, "type": "Tombstone", "id": id, "formerType": "Note", "deleted": "2020-01-01T00:00:00Z"}
+			if r.chance(1, 2) { // a Tombstone under several type names
+				w.Store[id]["type"] = []interface{}{"Tombstone", "ext:Archived"}
+			}
 			sc.Path = "/tomb/1"
 		}
 		if r.chance(1, 2) { // hidden recipients at several depths
